@@ -120,7 +120,7 @@ def report(pid, mod, total, tier, seed, wall_s, mode):
     for key, items in sorted(old.items()):
         print(
             "KNOWN-FINDING: property=%s %s (%d occurrence(s) this run) -- %s"
-            % (pid, key, len(items), kf.entries[key]["what"])
+            % (pid, key, total.counters.get("mechanism:" + key, len(items)), kf.entries[key]["what"])
         )
     replay_paths = []
     for i, v in enumerate(new[:10]):
@@ -130,7 +130,11 @@ def report(pid, mod, total, tier, seed, wall_s, mode):
         replay_paths.append(path)
         print("VIOLATION property=%s replay=%s" % (pid, path))
         print("  what: %s" % str(v.get("what"))[:600])
-    n_new = total.n_violations - sum(len(v) for v in old.values())
+    n_known = sum(
+        n for key, n in total.counters.items()
+        if key.startswith("mechanism:") and kf.open_entry(pid, key[len("mechanism:"):]) is not None
+    )
+    n_new = total.n_violations - n_known
     if mode != "replay":
         coverage = {
             "evaluations": total.evaluations,
